@@ -3,9 +3,10 @@
 -/
 import PowHsm.Spec.C11
 import PowHsm.Proofs.Monad
+import PowHsm.Proofs.Emits
 namespace PowHsm
 namespace Props.C11
-open Ledger Comm Spec Dongle
+open Ledger Comm Spec Dongle M
 
 /-- transport classification: write / read errors are communication errors, a time-out is a
     time-out (and never a communication error) -/
@@ -91,6 +92,69 @@ theorem reconnect_failure_retries (c : Codes) (b : Bool) (k : M Out) (w : World)
     intro h1 h2 h3
     simp only at h1 h2 h3; subst h1 h2 h3
     simp [isComm, isError, isTimeout, setCommIssue, modifyWorld, M.bind_apply]
+
+/-- the bring-up starts by (re-)opening the connection -/
+theorem bringup_opens_first (w : World) : ∃ ok rest, (initializeDevice w).evs = .connect ok :: rest := by
+  unfold initializeDevice initGuards
+  obtain ⟨t1, h1⟩ := bind_evs_prefix (do
+      M.tryCatchIf connect Exc.isDongleBase (fun _ => M.throw' .protoError)
+      let o ← M.tryCatchIf (do let o ← isOnboarded; if !o then M.throw' .protoError else pure o)
+        Exc.isDongleBase (fun _ => M.throw' .protoInterrupt)
+      let mode ← getCurrentMode
+      pure (o, mode)) (fun om => if om.2 == Generated.Mode_BOOTLOADER.toNat then do
+        handleBootloader
+        let mode ← getCurrentMode
+        afterDispatch mode
+      else afterDispatch om.2) w
+  obtain ⟨t2, h2⟩ := bind_evs_prefix (M.tryCatchIf connect Exc.isDongleBase (fun _ => M.throw' .protoError))
+    (fun _ => do
+      let o ← M.tryCatchIf (do let o ← isOnboarded; if !o then M.throw' .protoError else pure o)
+        Exc.isDongleBase (fun _ => M.throw' .protoInterrupt)
+      let mode ← getCurrentMode
+      pure (o, mode)) w
+  obtain ⟨t3, h3⟩ := tryCatchIf_evs_prefix connect Exc.isDongleBase (fun _ => M.throw' .protoError) w
+  have hc : ∃ ok, (connect w).evs = [.connect ok] := by
+    unfold connect
+    split
+    · exact ⟨true, rfl⟩
+    · exact ⟨true, rfl⟩
+    · exact ⟨false, rfl⟩
+  obtain ⟨ok, hc⟩ := hc
+  refine ⟨ok, t3 ++ t2 ++ t1, ?_⟩
+  rw [h1, h2, h3, hc]
+  simp
+
+/-- **after a link failure the next request first closes and re-opens the connection and repeats
+    the full bring-up before anything of the command is sent**: with a repair pending, the trace
+    of any guarded command is `disconnect`, then the complete bring-up (which starts with the
+    re-open), and the command's own events follow only if the bring-up succeeded — otherwise
+    nothing of the command is sent at all -/
+theorem repair_precedes_command {α : Type} (k : M α) (w : World) (hi : w.commIssue = true) :
+    (∃ e, (initializeDevice w).val = .error e ∧
+        ((ensureConnection >>= fun _ => k) w).evs = .disconnect :: (initializeDevice w).evs) ∨
+    ((initializeDevice w).val = .ok () ∧
+        ((ensureConnection >>= fun _ => k) w).evs =
+          .disconnect :: ((initializeDevice w).evs ++ (k { (initializeDevice w).w with commIssue := false }).evs) ∧
+        ((ensureConnection >>= fun _ => k) w).val = (k { (initializeDevice w).w with commIssue := false }).val) := by
+  have hens : ensureConnection w =
+      (M.tryCatchIf (do initializeDevice; setCommIssue false) (fun e => e == .protoError)
+        (fun _ => M.throw' .dongleComm) w |> fun r => ⟨r.val, .disconnect :: r.evs, r.w⟩) := by
+    simp [ensureConnection, M.bind_apply, getWorld, hi, disconnect, M.emit]
+  cases hini : initializeDevice w with
+  | mk v e w1 =>
+    cases v with
+    | error ex =>
+      left
+      refine ⟨ex, rfl, ?_⟩
+      rw [M.bind_apply, hens]
+      by_cases hp : (ex == Exc.protoError) = true
+      · simp [M.tryCatchIf, M.bind_apply, hini, hp, M.throw']
+      · simp [M.tryCatchIf, M.bind_apply, hini, hp]
+    | ok u =>
+      right
+      refine ⟨rfl, ?_, ?_⟩ <;>
+      · rw [M.bind_apply, hens]
+        simp [M.tryCatchIf, M.bind_apply, hini, setCommIssue, modifyWorld]
 
 end Props.C11
 end PowHsm
